@@ -1590,6 +1590,12 @@ impl Server {
                     }
 
                     if self.channel.back_buf.available_data() == 0 && queue.is_empty() {
+                        // Nothing is left to write. `writable()` drops the WRITABLE
+                        // interest when it drains the back buffer, but a response that
+                        // was dropped above never reaches it: without this the event
+                        // loop keeps seeing `readiness() != EMPTY` and spins on the
+                        // channel for ever without returning to `poll`.
+                        self.channel.interest.remove(Ready::WRITABLE);
                         break;
                     }
                 }
